@@ -47,6 +47,30 @@ fn random_matrix(rng: &mut Rng) -> Matrix4<f32> {
             m[(3, 3)] = *rng.pick(&[0.5f32, 0.75, 2.0, 3.0]);
         }
     }
+    // structural special cases (see C03): parts of the matrix exactly those
+    // of the identity while others are not
+    if rng.chance(0.3) {
+        if rng.chance(0.5) {
+            for i in 0..3 {
+                m[(i, 3)] = 0.0;
+            }
+        }
+        if rng.chance(0.5) {
+            m[(3, 3)] = 1.0;
+        }
+        if rng.chance(0.3) {
+            for i in 0..3 {
+                for j in 0..3 {
+                    m[(i, j)] = if i == j { 1.0 } else { 0.0 };
+                }
+            }
+        }
+        if rng.chance(0.3) {
+            for j in 0..3 {
+                m[(3, j)] = rng.uniform(-0.3, 0.3) as f32;
+            }
+        }
+    }
     m
 }
 
@@ -324,24 +348,41 @@ fn check_backend<F: Backend>(
             // homogeneous divide: d(n_k / w) = (dn_k * w - n_k * dw) / w^2
             for j in 0..n {
                 let inp = [gx[j], gy[j], gz[j]];
-                let lin = |r: usize| -> (f64, [f64; 3]) {
+                // value, partials, and the magnitudes of the summed terms
+                // (a bound for the f32 rounding error of each sum is a few
+                // eps times these)
+                let lin = |r: usize| -> (f64, [f64; 3], f64, [f64; 3]) {
                     let mut v = m[(r, 3)] as f64;
+                    let mut sv = (m[(r, 3)] as f64).abs();
                     let mut d = [0f64; 3];
+                    let mut sd = [0f64; 3];
                     for c in 0..3 {
-                        v += m[(r, c)] as f64 * inp[c].v as f64;
-                        d[0] += m[(r, c)] as f64 * inp[c].dx as f64;
-                        d[1] += m[(r, c)] as f64 * inp[c].dy as f64;
-                        d[2] += m[(r, c)] as f64 * inp[c].dz as f64;
+                        let mc = m[(r, c)] as f64;
+                        v += mc * inp[c].v as f64;
+                        sv += (mc * inp[c].v as f64).abs();
+                        for (q, dq) in [inp[c].dx, inp[c].dy, inp[c].dz].into_iter().enumerate() {
+                            d[q] += mc * dq as f64;
+                            sd[q] += (mc * dq as f64).abs();
+                        }
                     }
-                    (v, d)
+                    (v, d, sv, sd)
                 };
-                let (w, dw) = lin(3);
+                let (w, dw, sw, sdw) = lin(3);
+                let e = 8.0 * f32::EPSILON as f64;
                 for k in 0..3 {
-                    let (nk, dnk) = lin(k);
+                    let (nk, dnk, snk, sdnk) = lin(k);
                     let got = [tin[k][j].dx as f64, tin[k][j].dy as f64, tin[k][j].dz as f64];
                     for c in 0..3 {
                         let want = (dnk[c] * w - nk * dw[c]) / (w * w);
                         let scale = (dnk[c] * w).abs().max((nk * dw[c]).abs()) / (w * w) + 1e-30;
+                        // first-order propagation of the rounding errors of
+                        // w, n_k, dw, dn_k (each a 4-term f32 sum, possibly
+                        // with cancellation: w near 0 for perspective rows)
+                        let cond = (dnk[c] / (w * w)).abs() * e * sw + (2.0 * want / w).abs() * e * sw
+                            + (dw[c] / (w * w)).abs() * e * snk
+                            + e * sdnk[c] / w.abs()
+                            + (nk / (w * w)).abs() * e * sdw[c];
+                        let scale = scale + cond / (64.0 * f32::EPSILON as f64);
                         st.inc("grad_transform_partials_judged");
                         if !((got[c] - want).abs() <= 64.0 * f32::EPSILON as f64 * scale) {
                             return Err(v("grad_transform_partial", format!("the gradient evaluator's transformed coordinate {k} has partial {c} = {:e}, the quotient rule of the homogeneous divide gives {want:e}", got[c]), setup()));
